@@ -7,6 +7,7 @@ import (
 	"context"
 	"errors"
 	"fmt"
+	"os"
 	"runtime/debug"
 	"strings"
 
@@ -22,6 +23,9 @@ type Opts struct {
 	Hist      bool
 	Ctx       context.Context // if set, ExecuteContext is used
 	Interp    *interp.Interpreter
+	// FileOutput: standard output and error are temporary files (read back into the Outcome)
+	// instead of in-memory buffers; for programs that start child processes.
+	FileOutput bool
 }
 
 type Outcome struct {
@@ -85,6 +89,32 @@ func Parse(src string, funcs map[string]any) (prog *parser.Program, err error, p
 func Exec(prog *parser.Program, cfg *interp.Config, o Opts) (out Outcome) {
 	var stdout, stderr bytes.Buffer
 	c := *cfg
+	if o.FileOutput && c.Output == nil && c.Error == nil {
+		// Children inherit a file directly; any other writer is served by an os/exec copying
+		// goroutine that goawk abandons 250 ms (WaitDelay) after the child's exit.
+		fo, err1 := os.CreateTemp("", "verif-out-*")
+		fe, err2 := os.CreateTemp("", "verif-err-*")
+		if err1 == nil && err2 == nil {
+			c.Output, c.Error = fo, fe
+			defer func() {
+				for _, f := range []*os.File{fo, fe} {
+					_ = f.Close()
+				}
+				bo, _ := os.ReadFile(fo.Name())
+				be, _ := os.ReadFile(fe.Name())
+				out.Stdout, out.Stderr = string(bo), string(be)
+				_ = os.Remove(fo.Name())
+				_ = os.Remove(fe.Name())
+			}()
+		} else {
+			for _, f := range []*os.File{fo, fe} {
+				if f != nil {
+					_ = f.Close()
+					_ = os.Remove(f.Name())
+				}
+			}
+		}
+	}
 	if c.Output == nil {
 		c.Output = &stdout
 	}
